@@ -68,7 +68,7 @@ def exc_is_subclass(cls, parent):
 
 # ---------------------------------------------------------------------------------------
 class Path:
-    feas_timeout_ms = 3000
+    feas_timeout_ms = 800
 
     def __init__(self, decisions):
         self.decisions = list(decisions)
@@ -181,9 +181,10 @@ def explore(run, max_paths=4000):
 
 # ---------------------------------------------------------------------------------------
 class Scope:
-    def __init__(self, parent=None, vars=None):
+    def __init__(self, parent=None, vars=None, bound=False):
         self.parent = parent
         self.vars = vars if vars is not None else {}
+        self.bound = bound            # scope of quantifier-bound variables (comprehension targets)
 
     def lookup(self, name):
         s = self
@@ -390,7 +391,10 @@ class Interp:
 
     def e_Name(self, node, scope):
         try:
-            return scope.lookup(node.id)
+            v = scope.lookup(node.id)
+            if type(v).__name__ == 'DeadAfterLoop':
+                raise Undecided(f'{node.id} is read after the loop that assigns it (value not tracked by the loop contract)')
+            return v
         except KeyError:
             pass
         g = self.world.global_name(self, node.id)
@@ -554,7 +558,12 @@ class Interp:
                     b = coerce(b, a.typ)
                 return SV(BOOL, a.t == b.t)
             if f.id in ('implies', 'iff') and self.in_spec:
-                a = _b(self.truth(self.eval(node.args[0], scope)))
+                a = self.truth(self.eval(node.args[0], scope))
+                if f.id == 'implies' and isinstance(a, bool):
+                    if not a:
+                        return True
+                    return self.eval(node.args[1], scope)
+                a = _b(a)
                 self.path.guards.append(a)
                 try:
                     b = _b(self.truth(self.eval(node.args[1], scope)))
@@ -572,7 +581,16 @@ class Interp:
                 if f.attr == 'isEnabledFor':
                     return False
                 return None
-        func = self.eval(f, scope)
+        if isinstance(f, ast.Attribute) and f.attr in MUTATORS:
+            recv = self.eval(f.value, scope)
+            if isinstance(recv, SV) and recv.typ.kind in ('Seq', 'Set', 'Map'):
+                margs = [self.eval(a, scope) for a in node.args]
+                new, result = self.world.lib.mutate(self, recv, f.attr, margs)
+                self.world.lib.write_back(self, f.value, new, scope)
+                return result
+            func = SBound(recv, f.attr) if not isinstance(recv, (SObj, SNamespace, SClass)) else self.getattr(recv, f.attr)
+        else:
+            func = self.eval(f, scope)
         args = []
         for a in node.args:
             if isinstance(a, ast.Starred):
@@ -593,8 +611,18 @@ class Interp:
     def eval_old(self, expr, scope):
         saved_heap = self.heap
         self.heap = self.entry_heap
+        base = self.entry_scope if self.entry_scope is not None else scope
+        # quantifier-bound variables of the enclosing specification stay visible inside old(...)
+        bound = {}
+        s = scope
+        while s is not None and s.bound:
+            for k, v in s.vars.items():
+                bound.setdefault(k, v)
+            s = s.parent
+        if bound:
+            base = Scope(base, bound)
         try:
-            return self.eval(expr, self.entry_scope if self.entry_scope is not None else scope)
+            return self.eval(expr, base)
         finally:
             self.heap = saved_heap
 
@@ -610,6 +638,8 @@ class Interp:
             return self.call_method(func.recv, func.name, args, kwargs, node)
         if isinstance(func, SClass):
             return self.world.construct(self, func, args, kwargs, node)
+        if isinstance(func, SNamespace) and func.name in self.world.construct_hooks:
+            return self.world.construct_hooks[func.name](self, args, kwargs)
         if callable(func):
             return func(self, *args, **kwargs)
         raise Undecided(f'call of {func!r}')
@@ -1161,6 +1191,9 @@ class Interp:
         raise Undecided('import inside a function')
 
     def s_Try(self, st, scope):
+        # the finally block runs for Python-level exits only (normal, raise, return, break, continue);
+        # engine exits (PathEnd, Undecided) abandon the path without executing program text
+        pending = None
         try:
             try:
                 self.exec_block(st.body, scope)
@@ -1180,9 +1213,12 @@ class Interp:
                     raise
             else:
                 self.exec_block(st.orelse, scope)
-        finally:
-            if st.finalbody:
-                self.exec_block(st.finalbody, scope)
+        except (PyRaise, _Return, _Break, _Continue) as e:
+            pending = e
+        if st.finalbody:
+            self.exec_block(st.finalbody, scope)
+        if pending is not None:
+            raise pending
 
     def handler_matches(self, h, exc, scope):
         if h.type is None:
@@ -1206,11 +1242,15 @@ class Interp:
             entered.append((cm, val))
             if item.optional_vars is not None:
                 self.assign(item.optional_vars, val[1], scope)
+        pending = None
         try:
             self.exec_block(st.body, scope)
-        finally:
-            for cm, val in reversed(entered):
-                self.world.lib.with_exit(self, cm, val, scope)
+        except (PyRaise, _Return, _Break, _Continue) as e:
+            pending = e
+        for cm, val in reversed(entered):
+            self.world.lib.with_exit(self, cm, val, scope)
+        if pending is not None:
+            raise pending
 
     def s_While(self, st, scope):
         self.loop(st, scope)
@@ -1234,6 +1274,10 @@ class Interp:
         finally:
             self.in_spec -= 1
             self.path.nofork -= 1
+
+
+MUTATORS = {'append', 'extend', 'insert', 'add', 'discard', 'remove', 'pop', 'update', 'clear', 'setdefault',
+            'intersection_update', 'difference_update', 'sort', 'reverse'}
 
 
 class GenExp:
